@@ -474,50 +474,67 @@ fn rule_table_buffered(role: Role) {
     let hk_id: crate::varint::VarInt = kani::any();
     let cut: usize = kani::any();
     kani::assume(cut <= len);
-    let mut br = BufferReader::new(&buf[..cut]);
-    let got = match role {
+    // First attempt on the prefix `buf[..cut]`; if it is a proper prefix the reader must ask for
+    // more WITHOUT consuming anything and WITHOUT changing the stream's state: the second attempt,
+    // on the SAME stream object with the whole input, must give the verdict of an untouched stream.
+    macro_rules! attempts {
+        ($s:ident) => {{
+            let mut br1 = BufferReader::new(&buf[..cut]);
+            let g1 = $s.read_frame_from_buffer(&mut br1);
+            let off1 = br1.offset();
+            if cut < len {
+                assert!(matches!(g1, Ok(None)));
+                assert!(off1 == 0);
+                let mut br2 = BufferReader::new(&buf[..len]);
+                let g2 = $s.read_frame_from_buffer(&mut br2);
+                (g2, br2.offset())
+            } else {
+                (g1, off1)
+            }
+        }};
+    }
+    let (got, off) = match role {
         Role::BiRemote => {
             let mut s = biremote::StreamBiRemoteQuic::accept_bi().upgrade();
             if done {
                 s.stage.set_first_frame();
             }
-            s.read_frame_from_buffer(&mut br)
+            attempts!(s)
         }
         Role::BiLocal => {
             let mut s = bilocal::StreamBiLocalQuic::open_bi().upgrade();
             if done {
                 s.stage.set_first_frame();
             }
-            s.read_frame_from_buffer(&mut br)
+            attempts!(s)
         }
-        Role::UniRemoteControl => any_control_like_stream(hk_sel, hk_id).read_frame_from_buffer(&mut br),
-        Role::Session => any_session_stream().read_frame_from_buffer(&mut br),
+        Role::UniRemoteControl => {
+            let mut s = any_control_like_stream(hk_sel, hk_id);
+            attempts!(s)
+        }
+        Role::Session => {
+            let s = any_session_stream();
+            attempts!(s)
+        }
     };
-    let off = br.offset();
-    if cut < len {
-        // incomplete: need more data, nothing consumed (the leading unknown frame, if any, is
-        // re-skipped on the next attempt)
-        assert!(matches!(got, Ok(None)));
-        assert!(off == 0);
-    } else {
-        match (rule(role, kind, done), &got) {
-            (Verdict::Accept, Ok(Some(f))) => {
-                assert!(frame_kind_code(&f.kind()) == kind);
-                assert!(f.session_id().map(|s| s.into_u64()) == session);
-                assert!(f.payload().len() == plen);
-                assert!(off == len);
-            }
-            (Verdict::Reject(code), Err(e)) => {
-                assert!(e.to_code().into_inner() == code);
-                assert!(off == 0);
-            }
-            _ => panic!("buffered read_frame: accept/reject differs from the specification"),
+    match (rule(role, kind, done), &got) {
+        (Verdict::Accept, Ok(Some(f))) => {
+            assert!(frame_kind_code(&f.kind()) == kind);
+            assert!(f.session_id().map(|s| s.into_u64()) == session);
+            assert!(f.payload().len() == plen);
+            assert!(off == len);
         }
+        (Verdict::Reject(code), Err(e)) => {
+            assert!(e.to_code().into_inner() == code);
+            assert!(off == 0);
+        }
+        _ => panic!("buffered read_frame: accept/reject differs from the specification"),
     }
     let _ = start;
     kani::cover!(cut < len && cut > 2);
     kani::cover!(cut == len && got.is_ok());
     kani::cover!(cut == len && got.is_err());
+    kani::cover!(cut < len && got.is_ok());
 }
 
 macro_rules! buffered_harness {
@@ -559,3 +576,67 @@ pub fn p_rule_table_session() {
 }
 
 
+
+// ---- async local upgrades (C01, C16): the driver's path for every locally opened WT stream -------------
+
+#[cfg(feature = "async")]
+fn poll_ready<F: std::future::Future>(fut: F) -> Option<F::Output> {
+    let mut fut = std::pin::pin!(fut);
+    let waker = std::task::Waker::noop();
+    let mut cx = std::task::Context::from_waker(waker);
+    match fut.as_mut().poll(&mut cx) {
+        std::task::Poll::Ready(v) => Some(v),
+        std::task::Poll::Pending => None,
+    }
+}
+
+/// The ASYNC upgrades of locally opened streams write exactly the preamble (0x41 / 0x54 varint +
+/// session id varint) and nothing else, and keep the session id (always-ready destination; the
+/// leaf futures cover every chunking / Pending pattern).
+#[cfg(feature = "async")]
+#[kani::proof]
+#[kani::unwind(10)]
+pub fn p_wt_upgrade_async_bi_exact_preamble() {
+    wt_upgrade_async_exact(true);
+}
+
+#[cfg(feature = "async")]
+#[kani::proof]
+#[kani::unwind(10)]
+pub fn p_wt_upgrade_async_uni_exact_preamble() {
+    wt_upgrade_async_exact(false);
+}
+
+#[cfg(feature = "async")]
+fn wt_upgrade_async_exact(bi: bool) {
+    use crate::stream_header::verif_kani::ReadySink;
+    let sid: SessionId = kani::any();
+    let mut sink = ReadySink { data: [0; 24], pos: 0 };
+    let first = if bi { spec::frame_type::WT_STREAM } else { spec::stream_type::WT_UNI };
+    if bi {
+        let h3 = bilocal::StreamBiLocalQuic::open_bi().upgrade();
+        match poll_ready(h3.upgrade_async(sid, &mut sink)) {
+            Some(Ok(wt)) => assert!(wt.session_id() == sid),
+            _ => panic!("async bi upgrade did not complete on a ready destination"),
+        }
+    } else {
+        let header = StreamHeader::new_webtransport(sid);
+        match poll_ready(unilocal::StreamUniLocalQuic::open_uni().upgrade_async(header, &mut sink)) {
+            Some(Ok(h3)) => assert!(h3.upgrade().session_id() == sid),
+            _ => panic!("async uni upgrade did not complete on a ready destination"),
+        }
+    }
+    let n = 2 + spec::varint_len(sid.into_u64());
+    assert!(sink.pos == n);
+    let i: usize = kani::any();
+    kani::assume(i < 24);
+    if i < 2 {
+        assert!(sink.data[i] == spec::varint_byte(first, i));
+    } else if i < n {
+        assert!(sink.data[i] == spec::varint_byte(sid.into_u64(), i - 2));
+    } else {
+        assert!(sink.data[i] == 0);
+    }
+    kani::cover!(n == 10);
+    kani::cover!(n == 3);
+}
